@@ -62,6 +62,7 @@ type client struct {
 var clients = []client{
 	{"m1", net.HardwareAddr{0x02, 0, 0, 0, 0, 0x01}, nil, ""},
 	{"m2", net.HardwareAddr{0x02, 0, 0, 0, 0, 0x02}, net.IPv4(10, 9, 9, 1).To4(), "c1"},
+	{"m3", net.HardwareAddr{0x02, 0, 0, 0, 0, 0x03}, net.IPv4(10, 9, 9, 1).To4(), "c1"}, // second MAC behind the same line (CPE swap)
 }
 
 // ---- history alphabet (userspace side)
@@ -82,6 +83,7 @@ type world struct {
 	d       *dhcpdrv.V4
 	offered map[string]net.IP // last offer per client
 	leased  map[string]net.IP // last ACKed address per client (nil after release/decline/expiry)
+	ended   map[string]bool   // the client HAD a binding and it ended (release/decline/expiry) with nothing since
 }
 
 func (w *world) apply(cfg config, op string) {
@@ -90,6 +92,7 @@ func (w *world) apply(cfg config, op string) {
 		w.d.Advance(61 * time.Second)
 		for k := range w.leased {
 			delete(w.leased, k)
+			w.ended[k] = true
 		}
 		return
 	}
@@ -112,6 +115,11 @@ func (w *world) apply(cfg config, op string) {
 			m.ReqIP = ip
 		} else {
 			m.ReqIP = net.IPv4(10, 1, 1, 77)
+			for _, o := range clients {
+				if o.name != c.name && c.circuit != "" && o.circuit == c.circuit && w.leased[o.name] != nil {
+					m.ReqIP = w.leased[o.name] // the line's address
+				}
+			}
 		}
 		m.ServerID = w.d.ServerIP()
 	case "L":
@@ -130,9 +138,13 @@ func (w *world) apply(cfg config, op string) {
 		case dhcpv4.MessageTypeAck:
 			w.leased[c.name] = r.YIAddr
 			delete(w.offered, c.name)
+			delete(w.ended, c.name)
 		}
 	}
 	if parts[0] == "L" || parts[0] == "X" {
+		if w.leased[c.name] != nil {
+			w.ended[c.name] = true
+		}
 		delete(w.leased, c.name)
 	}
 }
@@ -140,7 +152,7 @@ func (w *world) apply(cfg config, op string) {
 func newWorld(cfg config, loader *ebpf.Loader) *world {
 	d := dhcpdrv.NewV4(dhcpdrv.V4Config{Network: cfg.network, Gateway: cfg.gateway, ServerIP: cfg.serverIP, Lease: cfg.lease, Loader: loader, DNS: cfg.dns,
 		Sleep: func(x time.Duration) { time.Sleep(x); synctest.Wait() }})
-	return &world{d: d, offered: map[string]net.IP{}, leased: map[string]net.IP{}}
+	return &world{d: d, offered: map[string]net.IP{}, leased: map[string]net.IP{}, ended: map[string]bool{}}
 }
 
 // ---- probe frames
@@ -171,6 +183,9 @@ func probes(thorough bool) []probe {
 			probe{"INFORM", dhcpv4.MessageTypeInform, "", "", true, false, lay, 80, 5},
 			probe{"DISCOVER-short-options", dhcpv4.MessageTypeDiscover, "", "", false, false, lay, 0, 5},
 		)
+	}
+	for n := 40; n <= 70; n++ {
+		ps = append(ps, probe{fmt.Sprintf("DISCOVER-opts%d", n), dhcpv4.MessageTypeDiscover, "", "", false, false, "53first", n, 5})
 	}
 	ps = append(ps, probe{"DISCOVER-ihl6", dhcpv4.MessageTypeDiscover, "", "", false, false, "53first", 80, 6},
 		probe{"REQUEST-ihl6", dhcpv4.MessageTypeRequest, "own", "ours", false, false, "53first", 80, 6})
@@ -314,16 +329,20 @@ func rev(ip net.IP) net.IP {
 }
 
 type env struct {
-	run    *report.Run
-	k      *nativebpf.Kernel
-	cfg    config
-	evals  int64
-	tx     int64
-	states int64
-	t      *testing.T
+	run     *report.Run
+	k       *nativebpf.Kernel
+	cfg     config
+	evals   int64
+	tx      int64
+	states  int64
+	t       *testing.T
+	viaLine bool
 }
 
 func (e *env) viol(kind, site, detail string, h hist, c client, p probe) {
+	if e.viaLine {
+		detail += " [answered from another MAC's lease on the same circuit-id]"
+	}
 	v := report.Violation{Part: "fastpath[" + e.cfg.name + "]", Kind: kind, Site: site, Detail: detail, Config: e.cfg.name,
 		Trace: append(append([]string{}, h...), fmt.Sprintf("probe %s from %s", p.name, c.name))}
 	classify(&v)
@@ -336,6 +355,14 @@ func classify(v *report.Violation) {
 	// C03-K1-<site>: IPv4 values reach the reply byte-reversed (root cause recorded under C06-K1-dhcp-*).
 	if v.Kind == "value-differs" && strings.Contains(v.Detail, revMark) {
 		v.Class = "C03-K1-" + v.Site
+	}
+	// C03-K3: option-82 circuit-id identifies the subscriber LINE in the fast path: a MAC that holds nothing is answered
+	// from the cache entry of another MAC's lease on the same circuit-id, with that lease's address; the userspace
+	// server keys its lease table by MAC and refuses / treats the new MAC separately (same root cause as
+	// C02-K-v4-circuit-id-shared-binding).
+	if v.Class == "" && strings.Contains(v.Detail, "[answered from another MAC's lease on the same circuit-id]") && (v.Kind == "answers-where-userspace-does-not" || v.Kind == "value-differs") {
+		v.Class = "C03-K3-circuit-id-identifies-line"
+		return
 	}
 	// C03-K2: the fast path answers REQUESTs from the cache without looking at the requested address or the
 	// server identifier, where the userspace server refuses or ignores the request.
@@ -362,11 +389,13 @@ func (e *env) evalState(h hist, ps []probe) {
 		c           client
 		p           probe
 		pl, in, out []byte
+		viaLine     bool // answered although this MAC holds nothing: the cache entry of another MAC's lease on the same circuit-id
 	}
 	var pending []txCase
 	defer func() {
 		// reference replays run in their own bubbles (bubbles do not nest)
 		for _, x := range pending {
+			e.viaLine = x.viaLine
 			e.checkReply(h, nil, x.c, x.p, x.pl, x.in, x.out)
 		}
 	}()
@@ -380,14 +409,12 @@ func (e *env) evalState(h hist, ps []probe) {
 		}
 		e.states++
 		for _, c := range clients {
-			gone := false // the client's binding ended by release / decline / expiry and nothing since
-			for i := len(h) - 1; i >= 0; i-- {
-				if h[i] == "T" || h[i] == "L:"+c.name || h[i] == "X:"+c.name {
-					gone = true
-					break
-				}
-				if strings.HasSuffix(h[i], ":"+c.name) {
-					break
+			gone := w.ended[c.name]
+			// another MAC currently holds a lease on this client's circuit-id (the line is shared)
+			lineShared := false
+			for _, o := range clients {
+				if o.name != c.name && c.circuit != "" && o.circuit == c.circuit && w.leased[o.name] != nil {
+					lineShared = true
 				}
 			}
 			for _, p := range ps {
@@ -409,14 +436,32 @@ func (e *env) evalState(h hist, ps []probe) {
 					continue
 				}
 				e.tx++
-				if gone {
+				if gone && !lineShared {
 					e.viol("answers-after-binding-ended", "dhcp_fastpath_prog", fmt.Sprintf("probe=%s: the client's binding was released/declined/expired in userspace, the fast path still answers", p.name), h, c, p)
 					continue
 				}
-				pending = append(pending, txCase{c, p, pl, in, out})
+				pending = append(pending, txCase{c, p, pl, in, out, lineShared && w.leased[c.name] == nil})
 			}
 		}
 	})
+}
+
+// endsWithEND walks the options and reports whether an END (255) option is reached inside the frame.
+func endsWithEND(o []byte) bool {
+	for i := 0; i < len(o); {
+		if o[i] == 255 {
+			return true
+		}
+		if o[i] == 0 {
+			i++
+			continue
+		}
+		if i+1 >= len(o) {
+			return false
+		}
+		i += 2 + int(o[i+1])
+	}
+	return false
 }
 
 func opt(o []byte, code byte) []byte {
@@ -488,6 +533,9 @@ func (e *env) checkReply(h hist, w *world, c client, p probe, payload, in, out [
 		bad("malformed-reply", "magic", "magic cookie %x", bp[236:240])
 	}
 	opts := bp[240:]
+	if !endsWithEND(opts) {
+		bad("malformed-reply", "options-end", "the options area of the reply is not terminated by an END option inside the frame")
+	}
 	mt := opt(opts, 53)
 	wantMT := byte(dhcpv4.MessageTypeOffer)
 	if p.mtype == dhcpv4.MessageTypeRequest {
@@ -614,7 +662,14 @@ func TestCheck(t *testing.T) {
 				}
 			}
 		}
+		// start from the empty server and from a state that histories of this depth cannot reach: two MACs
+		// holding leases behind one circuit-id (CPE swap), plus a direct client
 		rec(nil)
+		base := hist{"D:m2", "R:m2", "D:m3", "R:m3", "D:m1", "R:m1"}
+		depth0 := depth
+		depth = len(base) + depth0 - 1
+		rec(base)
+		depth = depth0
 		run.AddPart(report.Part{Name: "fastpath[" + cfg.name + "]", Engine: "A:history-tree + C:kernel-test-run", Bound: fmt.Sprintf("history depth<=%d over %d ops, %d probes x %d clients per state", depth, len(ops), len(ps), len(clients)),
 			States: e.states, Transitions: e.evals, Outcomes: e.tx, Exhaustive: true, Note: fmt.Sprintf("%d fast-path replies compared with the userspace server", e.tx)})
 		run.AddEvals(e.evals, e.tx)
